@@ -266,22 +266,71 @@ theorem parse_total_false :
 example :
     run id realCfg ([0x5a, 0x48, 0, 0, 0, 16, 0, 0, 0, 5, 1, 2, 3, 9, 9, 9, 9, 9, 9, 9, 9, 9]
       ++ [0x5a, 0x48, 0, 0, 0, 16, 0, 0, 0, 1, 12, 12, 12, 12, 12, 12, 12, 12, 12, 12, 12, 12])
-      = [.msg 5 3, .hb, .needMore] := by decide
+      = [.msg 5 3 (chk [1, 2, 3]), .hb, .needMore] := by decide
 
 /-! ### the parser as coded now is total, and agrees with the old code on guarded streams -/
 
+/-- HEADLINE lemma. The live model keeps every panicking primitive (`cryptBlocks`, `sliceTo4`,
+    `sliceFrom4`); none of their `none` branches is reachable BECAUSE of the guards ba190d7 / 1eafa5e
+    (and, for `originData[:4]`, because unpadding strips at least one byte from a slice whose
+    capacity it keeps).  Switch a guard off and this proof fails: `guard_aesLen_needed`,
+    `guard_codeLen_needed`. -/
+theorem unpackG_live_no_panic (g : Guards) (ha : g.aesLen = true) (hc : g.codeLen = true)
+    (dec : Bytes → Bytes) (c : Bytes) (s : Site) : unpackG g dec c ≠ .panic s := by
+  unfold unpackG
+  rw [ha, hc]
+  by_cases h16 : c.length % blockSize ≠ 0
+  · simp [h16]
+  · have hcb : cryptBlocks dec c = some (dec c) := by simp [cryptBlocks, h16]
+    simp only [h16, and_false, if_false, hcb]
+    cases hu : unpad (dec c) with
+    | none => simp
+    | some o =>
+      simp only
+      by_cases h4 : o.length < 4
+      · simp [h4]
+      · have hlt := unpad_length_lt hu
+        have hs1 : sliceTo4 (dec c).length (dec c) = some ((dec c).take 4) := by
+          have : ¬ (dec c).length < 4 := by omega
+          simp [sliceTo4, this]
+        have hs2 : sliceFrom4 o = some (o.drop 4) := by simp [sliceFrom4, h4]
+        simp only [h4, and_false, if_false, hs1, hs2]
+        split <;> simp
+
 theorem unpackFrameFixed_no_panic (dec : Bytes → Bytes) (c : Bytes) (s : Site) :
-    unpackFrameFixed dec c ≠ .panic s := by
-  unfold unpackFrameFixed
-  intro h
-  split at h
-  · cases h
-  · simp only at h
-    split at h
-    · cases h
-    · split at h
-      · cases h
-      · split at h <;> cases h
+    unpackFrameFixed dec c ≠ .panic s :=
+  unpackG_live_no_panic liveGuards rfl rfl dec c s
+
+/-- without guard ba190d7 (everything else as coded now) the same model panics, for every cipher -/
+theorem guard_aesLen_needed (dec : Bytes → Bytes) :
+    unpackG { liveGuards with aesLen := false } dec [0xff] = .panic .cryptBlocks := by
+  rfl
+
+/-- without guard 1eafa5e (everything else as coded now) the same model panics -/
+theorem guard_codeLen_needed :
+    unpackG { liveGuards with codeLen := false } id (List.replicate 16 0x10) = .panic .slicePayload := by
+  decide
+
+/-- with all guards off the parametrised model IS the pre-repair model -/
+theorem unpackG_noGuards (dec : Bytes → Bytes) (c : Bytes) : unpackG noGuards dec c = unpackFrame dec c := by
+  unfold unpackG unpackFrame noGuards cryptBlocks
+  simp only [Bool.false_eq_true, false_and, if_false]
+  by_cases h16 : c.length % blockSize ≠ 0
+  · simp [h16]
+  · simp only [h16, if_false]
+    cases hu : unpad (dec c) with
+    | none => rfl
+    | some o =>
+      simp only [sliceTo4, sliceFrom4]
+      by_cases hd : (dec c).length < 4
+      · simp [hd]
+      · simp only [hd, if_false, codeOf_take4]
+        by_cases h4 : o.length = 4
+        · simp [h4]
+        · simp only [h4, if_false]
+          by_cases hl : o.length < 4
+          · simp [hl]
+          · simp [hl]
 
 theorem handleWith_no_panic (u : Bytes → Unpacked) (hu : ∀ c s, u c ≠ .panic s) (c : Bytes) (s : Site) :
     handleWith u c ≠ .panic s := by
@@ -342,18 +391,16 @@ theorem parseFixed_total_chunked (dec : Bytes → Bytes) (cfg : Cfg) (cs : List 
 theorem unpackFrameFixed_eq_of_guard (dec : Bytes → Bytes) (c : Bytes) (hg : FrameGuard dec c) :
     unpackFrameFixed dec c = unpackFrame dec c := by
   obtain ⟨h16, h4⟩ := hg
-  unfold unpackFrameFixed unpackFrame
-  simp only [h16, ne_eq, not_true_eq_false, if_false]
+  unfold unpackFrameFixed unpackG unpackFrame liveGuards cryptBlocks
+  simp only [h16, ne_eq, not_true_eq_false, and_false, if_false]
   cases hu : unpad (dec c) with
   | none => rfl
   | some o =>
     have ho := h4 o hu
     have hlt := unpad_length_lt hu
-    have hc := codeOf_unpad hu ho
-    simp only
     have h1 : ¬ o.length < 4 := by omega
     have h2 : ¬ (dec c).length < 4 := by omega
-    simp only [h1, h2, if_false, hc]
+    simp only [sliceTo4, sliceFrom4, h1, h2, and_false, if_false, codeOf_take4]
 
 theorem runWith_fixed_agrees {σ : Type} (dec : Bytes → Bytes) (R : Reader σ) (cfg : Cfg) :
     ∀ (fuel : Nat) (st : σ), (∀ c ∈ contentsWith (handle dec) R cfg fuel st, FrameGuard dec c) →
@@ -415,13 +462,13 @@ theorem handleWith_deliver (u : Bytes → Unpacked) (c : Bytes) (code : Nat) (p 
         exact ⟨by omega, hne⟩
 
 theorem runWith_code_range {σ : Type} (u : Bytes → Unpacked) (R : Reader σ) (cfg : Cfg) :
-    ∀ (fuel : Nat) (st : σ) (code n : Nat), Ev.msg code n ∈ runWith (handleWith u) R cfg fuel st →
+    ∀ (fuel : Nat) (st : σ) (code n k : Nat), Ev.msg code n k ∈ runWith (handleWith u) R cfg fuel st →
       code ≤ 0x1F ∧ code ≠ 1 := by
   intro fuel
   induction fuel with
-  | zero => intro st code n hev; simp [runWith] at hev
-  | succ k ih =>
-    intro st code n hev
+  | zero => intro st code n k hev; simp [runWith] at hev
+  | succ fuel ih =>
+    intro st code n k hev
     unfold runWith frameStepWith at hev
     cases hr : readConn R cfg st with
     | needMore a => rw [hr] at hev; simp at hev
@@ -437,32 +484,32 @@ theorem runWith_code_range {σ : Type} (u : Bytes → Unpacked) (R : Reader σ) 
         simp only [List.mem_cons] at hev
         rcases hev with hev | hev
         · cases hev
-        · exact ih st' code n hev
+        · exact ih st' code n k hev
       | deliver code' p =>
         rw [hc] at hev
         simp only [List.mem_cons] at hev
         rcases hev with hev | hev
         · cases hev
           exact handleWith_deliver u c _ _ hc
-        · exact ih st' code n hev
+        · exact ih st' code n k hev
 
 /-- FULL: only codes ≤ 0x1F (and never the heartbeat code) reach the dispatcher — before and after
     the repairs, on flat and segmented connections. -/
-theorem code_range (dec : Bytes → Bytes) (cfg : Cfg) (s : Bytes) (code n : Nat)
-    (h : Ev.msg code n ∈ run dec cfg s) : code ≤ 0x1F ∧ code ≠ 1 :=
-  runWith_code_range (unpackFrame dec) flat cfg (s.length + 1) s code n h
+theorem code_range (dec : Bytes → Bytes) (cfg : Cfg) (s : Bytes) (code n k : Nat)
+    (h : Ev.msg code n k ∈ run dec cfg s) : code ≤ 0x1F ∧ code ≠ 1 :=
+  runWith_code_range (unpackFrame dec) flat cfg (s.length + 1) s code n k h
 
-theorem code_range_chunked (dec : Bytes → Bytes) (cfg : Cfg) (cs : List Bytes) (code n : Nat)
-    (h : Ev.msg code n ∈ runC dec cfg cs) : code ≤ 0x1F ∧ code ≠ 1 :=
-  runWith_code_range (unpackFrame dec) chunked cfg (cs.flatten.length + 1) cs code n h
+theorem code_range_chunked (dec : Bytes → Bytes) (cfg : Cfg) (cs : List Bytes) (code n k : Nat)
+    (h : Ev.msg code n k ∈ runC dec cfg cs) : code ≤ 0x1F ∧ code ≠ 1 :=
+  runWith_code_range (unpackFrame dec) chunked cfg (cs.flatten.length + 1) cs code n k h
 
-theorem code_range_fixed (dec : Bytes → Bytes) (cfg : Cfg) (s : Bytes) (code n : Nat)
-    (h : Ev.msg code n ∈ runFixed dec cfg s) : code ≤ 0x1F ∧ code ≠ 1 :=
-  runWith_code_range (unpackFrameFixed dec) flat cfg (s.length + 1) s code n h
+theorem code_range_fixed (dec : Bytes → Bytes) (cfg : Cfg) (s : Bytes) (code n k : Nat)
+    (h : Ev.msg code n k ∈ runFixed dec cfg s) : code ≤ 0x1F ∧ code ≠ 1 :=
+  runWith_code_range (unpackFrameFixed dec) flat cfg (s.length + 1) s code n k h
 
-theorem code_range_fixed_chunked (dec : Bytes → Bytes) (cfg : Cfg) (cs : List Bytes) (code n : Nat)
-    (h : Ev.msg code n ∈ runFixedC dec cfg cs) : code ≤ 0x1F ∧ code ≠ 1 :=
-  runWith_code_range (unpackFrameFixed dec) chunked cfg (cs.flatten.length + 1) cs code n h
+theorem code_range_fixed_chunked (dec : Bytes → Bytes) (cfg : Cfg) (cs : List Bytes) (code n k : Nat)
+    (h : Ev.msg code n k ∈ runFixedC dec cfg cs) : code ≤ 0x1F ∧ code ≠ 1 :=
+  runWith_code_range (unpackFrameFixed dec) chunked cfg (cs.flatten.length + 1) cs code n k h
 
 /-! ### split_invariant -/
 
@@ -549,10 +596,12 @@ theorem readConn_alloc_le {σ : Type} (R : Reader σ) (cfg : Cfg) (st : σ) :
   · rw [h]; exact Nat.le_add_right 6 _
   · rw [h]; exact ha
 
-/-- FULL for the frame reader: whatever arrives, one iteration of the read loop requests at most
-    6 + 2·MaxPackageLength bytes (header, content buffer, decryption buffer) -/
-theorem parse_alloc_bound {σ : Type} (h : Bytes → Handled) (R : Reader σ) (hR : Lawful R) (cfg : Cfg) (st : σ) :
-    (frameStepWith h R cfg st).alloc ≤ 6 + 2 * cfg.maxLen := by
+/-- per step: whatever arrives, one iteration of the read loop requests at most
+    6 + 2·MaxPackageLength bytes (header, content buffer, decryption buffer).  This is a constant
+    per call, NOT a bound in proportion to the bytes received: see `run_alloc_cumulative`. -/
+theorem parse_alloc_bound {σ : Type} (h : Bytes → Handled) (da : Bytes → Nat) (hda : ∀ c, da c ≤ c.length)
+    (R : Reader σ) (hR : Lawful R) (cfg : Cfg) (st : σ) :
+    (frameStepWith h da R cfg st).alloc ≤ 6 + 2 * cfg.maxLen := by
   unfold frameStepWith
   have hle := readConn_alloc_le R cfg st
   cases hr : readConn R cfg st with
@@ -560,18 +609,64 @@ theorem parse_alloc_bound {σ : Type} (h : Bytes → Handled) (R : Reader σ) (h
   | err e a => rw [hr] at hle; simp only [ReadRes.alloc] at hle ⊢; omega
   | content c st' a =>
     obtain ⟨ha, hc, _⟩ := readConn_content R hR cfg st st' c a hr
+    have := hda c
     simp only
     cases h c <;> simp only <;> omega
 
-/-- a frame that was received completely costs exactly twice its content plus the header -/
-theorem parse_alloc_complete {σ : Type} (h : Bytes → Handled) (R : Reader σ) (hR : Lawful R) (cfg : Cfg)
-    (st st' : σ) (c : Bytes) (a : Nat) (hr : readConn R cfg st = .content c st' a) :
-    (frameStepWith h R cfg st).alloc = 6 + 2 * c.length := by
+/-- a frame that was received completely costs the header, its content, and the decryption buffer
+    (`da c`: the whole content again, or nothing when AesDecrypt refuses the length first) -/
+theorem parse_alloc_complete {σ : Type} (h : Bytes → Handled) (da : Bytes → Nat) (R : Reader σ) (hR : Lawful R)
+    (cfg : Cfg) (st st' : σ) (c : Bytes) (a : Nat) (hr : readConn R cfg st = .content c st' a) :
+    (frameStepWith h da R cfg st).alloc = 6 + c.length + da c := by
   unfold frameStepWith
   obtain ⟨ha, _, _⟩ := readConn_content R hR cfg st st' c a hr
   rw [hr]
   simp only
   cases h c <;> simp only <;> omega
+
+theorem decAllocG_le (g : Guards) (c : Bytes) : decAllocG g c ≤ c.length := by
+  unfold decAllocG; split <;> omega
+
+/-- CUMULATIVE: over the whole life of a connection the read loop requests at most twice the bytes
+    it received plus ONE outstanding buffer (6 + MaxPackageLength: the frame whose header has
+    arrived and whose content has not).  Everything that was received completely is paid for in
+    proportion; what is not in proportion is exactly that one additive constant — 25 MiB for 6
+    bytes, see the open finding c15/alloc-not-proportional. -/
+theorem runAlloc_flat_le (h : Bytes → Handled) (da : Bytes → Nat) (hda : ∀ c, da c ≤ c.length) (cfg : Cfg) :
+    ∀ (fuel : Nat) (s : Bytes), runAllocWith h da flat cfg fuel s ≤ 2 * s.length + 6 + cfg.maxLen := by
+  intro fuel
+  induction fuel with
+  | zero => intro s; simp [runAllocWith]
+  | succ k ih =>
+    intro s
+    unfold runAllocWith frameStepWith
+    have hle := readConn_alloc_le flat cfg s
+    cases hr : readConn flat cfg s with
+    | needMore a => rw [hr] at hle; simp only [ReadRes.alloc] at hle ⊢; omega
+    | err e a => rw [hr] at hle; simp only [ReadRes.alloc] at hle ⊢; omega
+    | content c rest a =>
+      obtain ⟨hlen, ha, _⟩ := readConn_flat_content hr
+      have := hda c
+      have := ih rest
+      simp only
+      cases h c <;> simp only <;> omega
+
+theorem run_alloc_cumulative (dec : Bytes → Bytes) (cfg : Cfg) (s : Bytes) :
+    runAllocWith (handleFixed dec) (decAllocG liveGuards) flat cfg (s.length + 1) s
+      ≤ 2 * s.length + 6 + cfg.maxLen :=
+  runAlloc_flat_le _ _ (decAllocG_le liveGuards) cfg (s.length + 1) s
+
+theorem run_alloc_cumulative_chunked (dec : Bytes → Bytes) (cfg : Cfg) (cs : List Bytes) :
+    runAllocWith (handleFixed dec) (decAllocG liveGuards) chunked cfg (cs.flatten.length + 1) cs
+      ≤ 2 * cs.flatten.length + 6 + cfg.maxLen := by
+  rw [runAllocWith_sim chunked_sim]
+  exact runAlloc_flat_le _ _ (decAllocG_le liveGuards) cfg _ _
+
+/-- the additive constant is attained: 6 bytes, 6 + MaxPackageLength requested -/
+theorem alloc_not_proportional :
+    runAllocWith (handleFixed id) (decAllocG liveGuards) flat realCfg 7 [0x5a, 0x48, 0x01, 0x90, 0, 0]
+      = 6 + realCfg.maxLen := by
+  rfl
 
 /-! ### the pre-handshake reader -/
 
@@ -592,20 +687,49 @@ theorem eciesOpen_alloc_le (p m : Bytes → Bool) (c : Bytes) : (eciesOpen p m c
             · simp
             · simp only; omega
 
-theorem eciesOpenFixed_alloc_le (p m : Bytes → Bool) (c : Bytes) : (eciesOpenFixed p m c).2 ≤ c.length := by
-  unfold eciesOpenFixed
-  split
-  · simp
-  · simp only
-    split
-    · simp
-    · split
-      · simp
-      · split
-        · simp
-        · split
-          · simp
-          · simp only; omega
+theorem makeBytes_nonneg {n : Int} (h : 0 ≤ n) : makeBytes n = some n.toNat := by
+  unfold makeBytes; have : ¬ n < 0 := by omega
+  simp [this]
+theorem makeBytes_neg {n : Int} (h : n < 0) : makeBytes n = none := by
+  unfold makeBytes; simp [h]
+
+/-- shape of the opener once the four checks have passed -/
+theorem eciesOpenG_cons (g : Bool) (p m : Bytes → Bool) (b : UInt8) (t : Bytes) :
+    eciesOpenG g p m (b :: t) =
+      if b ≠ 2 ∧ b ≠ 3 ∧ b ≠ 4 then (.err .eciesKey, 0)
+      else if (b :: t).length < eciesRLen + eciesHLen + (if g then blockSize else 1) then (.err .eciesMsg, 0)
+      else if !p (b :: t) then (.err .eciesKey, 0)
+      else if !m (b :: t) then (.err .eciesMsg, 0)
+      else match makeBytes (((b :: t).length : Int) - (eciesRLen : Int) - (eciesHLen : Int) - (blockSize : Int)) with
+        | none => (.panic .makeslice, 0)
+        | some n => (.ok n, n) := by
+  rfl
+
+theorem eciesOpenG_alloc_le (g : Bool) (p m : Bytes → Bool) (c : Bytes) : (eciesOpenG g p m c).2 ≤ c.length := by
+  cases c with
+  | nil => simp [eciesOpenG]
+  | cons b t =>
+    rw [eciesOpenG_cons]
+    by_cases h1 : b ≠ 2 ∧ b ≠ 3 ∧ b ≠ 4
+    · rw [if_pos h1]; exact Nat.zero_le _
+    · rw [if_neg h1]
+      by_cases h2 : (b :: t).length < eciesRLen + eciesHLen + (if g then blockSize else 1)
+      · rw [if_pos h2]; exact Nat.zero_le _
+      · rw [if_neg h2]
+        by_cases h3 : (!p (b :: t)) = true
+        · rw [if_pos h3]; exact Nat.zero_le _
+        · rw [if_neg h3]
+          by_cases h4 : (!m (b :: t)) = true
+          · rw [if_pos h4]; exact Nat.zero_le _
+          · rw [if_neg h4]
+            by_cases hn : ((b :: t).length : Int) - (eciesRLen : Int) - (eciesHLen : Int) - (blockSize : Int) < 0
+            · rw [makeBytes_neg hn]; exact Nat.zero_le _
+            · rw [makeBytes_nonneg (by omega)]
+              simp only [eciesRLen, eciesHLen, blockSize] at hn ⊢
+              omega
+
+theorem eciesOpenFixed_alloc_le (p m : Bytes → Bool) (c : Bytes) : (eciesOpenFixed p m c).2 ≤ c.length :=
+  eciesOpenG_alloc_le _ p m c
 
 theorem hsStepWith_alloc_le {σ : Type} (o : Bytes → HsOut × Nat) (ho : ∀ c, (o c).2 ≤ c.length)
     (lim : Nat) (R : Reader σ) (hR : Lawful R) (st : σ) :
@@ -706,20 +830,86 @@ theorem hs_total_refuted :
       ([0x5a, 0x48, 0, 0, 0, 98] ++ (4 :: List.replicate 97 0))).out = .panic .makeslice := by
   decide
 
+/-- HEADLINE lemma. The live ECIES opener keeps the panicking `make([]byte, len(ct)-BlockSize)`;
+    its `none` branch is unreachable BECAUSE of the length guard fdba898 (used at the marked line).
+    Without the guard the same definition panics: `guard_eciesBlock_needed`. -/
+theorem eciesOpenG_guarded_no_panic (p m : Bytes → Bool) (c : Bytes) (s : Site) (a : Nat) :
+    eciesOpenG true p m c ≠ (.panic s, a) := by
+  cases c with
+  | nil => simp [eciesOpenG]
+  | cons b t =>
+    rw [eciesOpenG_cons]
+    by_cases h1 : b ≠ 2 ∧ b ≠ 3 ∧ b ≠ 4
+    · rw [if_pos h1]; intro h; cases h
+    · rw [if_neg h1]
+      by_cases h2 : (b :: t).length < eciesRLen + eciesHLen + (if true then blockSize else 1)
+      · rw [if_pos h2]; intro h; cases h
+      · rw [if_neg h2]
+        by_cases h3 : (!p (b :: t)) = true
+        · rw [if_pos h3]; intro h; cases h
+        · rw [if_neg h3]
+          by_cases h4 : (!m (b :: t)) = true
+          · rw [if_pos h4]; intro h; cases h
+          · rw [if_neg h4]
+            -- here the guard is used: len ≥ 65 + 32 + 16, so the length handed to `make` is ≥ 0
+            have hn : 0 ≤ ((b :: t).length : Int) - (eciesRLen : Int) - (eciesHLen : Int) - (blockSize : Int) := by
+              simp only [eciesRLen, eciesHLen, blockSize, if_true] at h2 ⊢
+              omega
+            rw [makeBytes_nonneg hn]
+            intro h; cases h
+
 theorem eciesOpenFixed_no_panic (p m : Bytes → Bool) (c : Bytes) (s : Site) (a : Nat) :
-    eciesOpenFixed p m c ≠ (.panic s, a) := by
-  unfold eciesOpenFixed
-  intro h
-  split at h
-  · cases h
-  · simp only at h
-    split at h
-    · cases h
-    · split at h
-      · cases h
-      · split at h
-        · cases h
-        · split at h <;> cases h
+    eciesOpenFixed p m c ≠ (.panic s, a) :=
+  eciesOpenG_guarded_no_panic p m c s a
+
+/-- without guard fdba898 the same model panics: 98-byte envelope, valid point and MAC -/
+theorem guard_eciesBlock_needed :
+    eciesOpenG false (fun _ => true) (fun _ => true) (4 :: List.replicate 97 0) = (.panic .makeslice, 0) := by
+  decide
+
+/-- with the guard off the parametrised opener IS the pre-repair model -/
+theorem eciesOpen_cons (p m : Bytes → Bool) (b : UInt8) (t : Bytes) :
+    eciesOpen p m (b :: t) =
+      if b ≠ 2 ∧ b ≠ 3 ∧ b ≠ 4 then (.err .eciesKey, 0)
+      else if (b :: t).length < eciesRLen + eciesHLen + 1 then (.err .eciesMsg, 0)
+      else if !p (b :: t) then (.err .eciesKey, 0)
+      else if !m (b :: t) then (.err .eciesMsg, 0)
+      else if (b :: t).length - eciesRLen - eciesHLen < blockSize then (.panic .makeslice, 0)
+      else (.ok ((b :: t).length - eciesRLen - eciesHLen - blockSize), (b :: t).length - eciesRLen - eciesHLen - blockSize) := by
+  rfl
+
+theorem eciesOpenG_false (p m : Bytes → Bool) (c : Bytes) : eciesOpenG false p m c = eciesOpen p m c := by
+  cases c with
+  | nil => rfl
+  | cons b t =>
+    rw [eciesOpenG_cons, eciesOpen_cons]
+    by_cases h1 : b ≠ 2 ∧ b ≠ 3 ∧ b ≠ 4
+    · rw [if_pos h1, if_pos h1]
+    · rw [if_neg h1, if_neg h1]
+      have e : (if false = true then blockSize else 1) = 1 := by simp
+      rw [e]
+      by_cases h2 : (b :: t).length < eciesRLen + eciesHLen + 1
+      · rw [if_pos h2, if_pos h2]
+      · rw [if_neg h2, if_neg h2]
+        by_cases h3 : (!p (b :: t)) = true
+        · rw [if_pos h3, if_pos h3]
+        · rw [if_neg h3, if_neg h3]
+          by_cases h4 : (!m (b :: t)) = true
+          · rw [if_pos h4, if_pos h4]
+          · rw [if_neg h4, if_neg h4]
+            by_cases hct : (b :: t).length - eciesRLen - eciesHLen < blockSize
+            · rw [if_pos hct]
+              have : ((b :: t).length : Int) - (eciesRLen : Int) - (eciesHLen : Int) - (blockSize : Int) < 0 := by
+                simp only [eciesRLen, eciesHLen, blockSize] at hct h2 ⊢; omega
+              rw [makeBytes_neg this]
+            · rw [if_neg hct]
+              have h0 : 0 ≤ ((b :: t).length : Int) - (eciesRLen : Int) - (eciesHLen : Int) - (blockSize : Int) := by
+                simp only [eciesRLen, eciesHLen, blockSize] at hct h2 ⊢; omega
+              rw [makeBytes_nonneg h0]
+              have : (((b :: t).length : Int) - (eciesRLen : Int) - (eciesHLen : Int) - (blockSize : Int)).toNat
+                  = (b :: t).length - eciesRLen - eciesHLen - blockSize := by
+                simp only [eciesRLen, eciesHLen, blockSize] at hct h2 ⊢; omega
+              rw [this]
 
 theorem hsStepWith_no_panic {σ : Type} (o : Bytes → HsOut × Nat) (ho : ∀ c s a, o c ≠ (.panic s, a))
     (lim : Nat) (R : Reader σ) (st : σ) (s : Site) : (hsStepWith o lim R st).out ≠ .panic s := by
@@ -745,13 +935,16 @@ theorem hsFixed_total {σ : Type} (p m : Bytes → Bool) (cfg : Cfg) (R : Reader
     (hsStepFixed p m cfg R st).out ≠ .panic s :=
   hsStepWith_no_panic _ (eciesOpenFixed_no_panic p m) cfg.maxLen R st s
 
-/-- (code before commit fdba898) PARTIAL `hs_total`: the old code does not panic on a message whose ECIES envelope is at
-    least 113 bytes (65 point + 16 IV + 32 tag) or shorter than 98 -/
-theorem hs_total_partial {σ : Type} (p m : Bytes → Bool) (cfg : Cfg) (R : Reader σ) (st : σ) (s : Site)
-    (hlen : ∀ n st' c st'', R.readFull n st' = some (c, st'') → c.length < 98 ∨ 113 ≤ c.length) :
-    (hsStep p m cfg R st).out ≠ .panic s := by
-  unfold hsStep hsStepWith
-  intro h
+/-- (code before commit fdba898) EXACT partial form of `hs_total`: the old pre-handshake reader
+    panics only on an envelope — the `c` it actually read and passed to the ECIES opener — of
+    98..112 bytes with a valid point and MAC.  (Replaces the former `hs_total_partial`, whose
+    hypothesis quantified over every possible read and was unsatisfiable.)  Non-vacuous:
+    `hs_total_refuted` is such a run. -/
+theorem hs_panic_only_short_envelope {σ : Type} (p m : Bytes → Bool) (cfg : Cfg) (R : Reader σ) (st : σ) (s : Site)
+    (h : (hsStep p m cfg R st).out = .panic s) :
+    ∃ n st' c st'', R.readFull n st' = some (c, st'') ∧ 98 ≤ c.length ∧ c.length < 113 ∧
+      p c = true ∧ m c = true ∧ s = .makeslice := by
+  unfold hsStep hsStepWith at h
   split at h
   · cases h
   · simp only at h
@@ -766,9 +959,109 @@ theorem hs_total_partial {σ : Type} (p m : Bytes → Bool) (cfg : Cfg) (R : Rea
           · rename_i c st3 hl
             simp only at h
             have hp : ∃ s a, eciesOpen p m c = (.panic s, a) := ⟨s, (eciesOpen p m c).2, by rw [← h]⟩
-            have := (eciesOpen_panic_iff p m c).mp hp
-            have := hlen _ _ _ _ hl
-            omega
+            obtain ⟨_, h98, h113, hpc, hmc⟩ := (eciesOpen_panic_iff p m c).mp hp
+            refine ⟨_, _, c, st3, hl, h98, h113, hpc, hmc, ?_⟩
+            -- the only panic site of eciesOpen is makeslice
+            unfold eciesOpen at h
+            split at h
+            · cases h
+            · simp only at h
+              split at h
+              · cases h
+              · split at h
+                · cases h
+                · split at h
+                  · cases h
+                  · split at h
+                    · cases h
+                    · split at h
+                      · cases h; rfl
+                      · cases h
+
+/-! ### the fuel of `run` is sufficient: the `fuel = 0` arm of `runWith` is never reached -/
+
+/-- any two fuels larger than the stream length give the same run (each frame consumes ≥ 6 bytes) -/
+theorem runWith_fuel_irrelevant (h : Bytes → Handled) (cfg : Cfg) :
+    ∀ (n : Nat) (s : Bytes), s.length < n → ∀ m, s.length < m →
+      runWith h flat cfg n s = runWith h flat cfg m s := by
+  intro n
+  induction n with
+  | zero => intro s hs; omega
+  | succ k ih =>
+    intro s hs m hm
+    cases m with
+    | zero => omega
+    | succ m' =>
+      unfold runWith frameStepWith
+      cases hr : readConn flat cfg s with
+      | needMore a => rfl
+      | err e a => rfl
+      | content c rest a =>
+        obtain ⟨hlen, _, _⟩ := readConn_flat_content hr
+        simp only
+        cases h c with
+        | panic s' => rfl
+        | err e => rfl
+        | heartbeat => simp only; rw [ih rest (by omega) m' (by omega)]
+        | deliver code p => simp only; rw [ih rest (by omega) m' (by omega)]
+
+theorem runFixed_fuel (dec : Bytes → Bytes) (cfg : Cfg) (s : Bytes) (extra : Nat) :
+    runWith (handleFixed dec) flat cfg (s.length + 1 + extra) s = runFixed dec cfg s :=
+  runWith_fuel_irrelevant _ cfg _ s (by omega) _ (by omega)
+
+/-- either the step stopped before the content arrived (≤ 6 + lim requested), or the three reads
+    succeeded and the step requested 6 + |c| + what the opener requested -/
+theorem hsStepWith_shape {σ : Type} (o : Bytes → HsOut × Nat) (lim : Nat) (R : Reader σ) (hR : Lawful R) (st : σ) :
+    (∃ out a, hsStepWith o lim R st = ⟨out, a⟩ ∧ a ≤ 6 + lim) ∨
+    (∃ pp st1 l st2 c st3, R.readFull 2 st = some (pp, st1) ∧ R.readFull 4 st1 = some (l, st2) ∧
+        (∃ n, R.readFull n st2 = some (c, st3)) ∧ c.length ≤ lim ∧
+        hsStepWith o lim R st = ⟨(o c).1, 6 + c.length + (o c).2⟩) := by
+  unfold hsStepWith
+  cases h2 : R.readFull 2 st with
+  | none => exact Or.inl ⟨.needMore, 2, rfl, by omega⟩
+  | some q =>
+    obtain ⟨pp, st1⟩ := q
+    simp only
+    by_cases hm : pp.getD 0 0 ≠ magic0 ∨ pp.getD 1 0 ≠ magic1
+    · rw [if_pos hm]; exact Or.inl ⟨.err .unavailable, 2, rfl, by omega⟩
+    · rw [if_neg hm]
+      cases h4 : R.readFull 4 st1 with
+      | none => exact Or.inl ⟨.needMore, 6, rfl, by omega⟩
+      | some r =>
+        obtain ⟨l, st2⟩ := r
+        simp only
+        generalize be32 (l.getD 0 0) (l.getD 1 0) (l.getD 2 0) (l.getD 3 0) = len
+        by_cases hlim : len = 0 ∨ len > lim
+        · rw [if_pos hlim]; exact Or.inl ⟨.err .unavailable, 6, rfl, by omega⟩
+        · rw [if_neg hlim]
+          have hb1 : 6 + len ≤ 6 + lim := by omega
+          cases hl : R.readFull len st2 with
+          | none => exact Or.inl ⟨.needMore, 6 + len, rfl, hb1⟩
+          | some t =>
+            obtain ⟨c, st3⟩ := t
+            have hc : c.length = len := hR _ _ _ _ hl
+            have hc2 : c.length ≤ lim := by omega
+            refine Or.inr ⟨pp, st1, l, st2, c, st3, rfl, h4, ⟨len, hl⟩, hc2, ?_⟩
+            simp only
+            rw [hc]
+
+theorem hsStepWith_flat_le (o : Bytes → HsOut × Nat) (ho : ∀ c, (o c).2 ≤ c.length) (lim : Nat) (s : Bytes) :
+    (hsStepWith o lim flat s).alloc ≤ 2 * s.length + 6 + lim := by
+  rcases hsStepWith_shape o lim flat flat_lawful s with ⟨out, a, h, ha⟩ | ⟨pp, s1, l, s2, c, s3, h2, h4, ⟨n, hl⟩, _, h⟩
+  · rw [h]; exact Nat.le_trans ha (by omega)
+  · rw [h]
+    have a1 := flatRead_some (show flatRead 2 s = some (pp, s1) from h2)
+    have a2 := flatRead_some (show flatRead 4 s1 = some (l, s2) from h4)
+    have a3 := flatRead_some (show flatRead n s2 = some (c, s3) from hl)
+    have a4 := ho c
+    show 6 + c.length + (o c).2 ≤ 2 * s.length + 6 + lim
+    omega
+
+/-- cumulative form for the pre-handshake reader (it performs a single step per connection):
+    twice the bytes received plus one outstanding buffer -/
+theorem hsFixed_alloc_cumulative (p m : Bytes → Bool) (cfg : Cfg) (s : Bytes) :
+    (hsStepFixed p m cfg flat s).alloc ≤ 2 * s.length + 6 + cfg.maxLen :=
+  hsStepWith_flat_le (eciesOpenFixed p m) (eciesOpenFixed_alloc_le p m) cfg.maxLen s
 
 /-! ### the former crash / allocation witnesses, on the code as it is now -/
 
@@ -787,7 +1080,7 @@ theorem witness_hs_alloc_now (p m : Bytes → Bool) :
 
 theorem witness_hs_ecies_now :
     (hsStepFixed (fun _ => true) (fun _ => true) realCfg flat
-      ([0x5a, 0x48, 0, 0, 0, 98] ++ (4 :: List.replicate 97 0))).out = .err .ecies := by
+      ([0x5a, 0x48, 0, 0, 0, 98] ++ (4 :: List.replicate 97 0))).out = .err .eciesMsg := by
   decide
 
 /-! ### dropping the connection from several goroutines at once (`Peer.Close`) -/
